@@ -113,28 +113,43 @@ def selfDelimiting : Item → Bool
   | _ => true
 
 /-- the rendering of this item cannot continue a number: it starts with something that is neither a
-digit nor (for literals) empty -/
+digit nor (for literals) empty.  `%.3f %.6f %.9f` always print a dot first. -/
 def stopsNumber : Item → Bool
   | .literal s => startsNonDigit s
   | .space s => startsNonDigit s
   | .fixed .shortMonthName | .fixed .longMonthName | .fixed .shortWeekdayName | .fixed .longWeekdayName
   | .fixed .lowerAmPm | .fixed .upperAmPm => true
   | .fixed .timezoneOffset | .fixed .timezoneOffsetColon => true      -- start with a sign
+  | .fixed .nanosecond3 | .fixed .nanosecond6 | .fixed .nanosecond9 => true   -- start with a dot
   | _ => false
 
-/-- a literal that starts with a dot (it would be taken for the start of an omitted `%.f` fraction) -/
+/-- the rendering starts with a dot (it would be taken for the start of an omitted `%.f` fraction): a
+literal that starts with one, and the fixed-width dot-fraction items -/
 def startsWithDot : Item → Bool
   | .literal (46 :: _) => true
+  | .fixed .nanosecond3 | .fixed .nanosecond6 | .fixed .nanosecond9 => true
   | _ => false
 
-/-- between a variable-width number and the next item there is a separator that is not a digit; and
-`%.f` (which prints nothing for a whole second) is not followed by a literal dot -/
+/-- a numeric item -/
+def isNumber : Item → Bool
+  | .numeric _ _ => true
+  | _ => false
+
+/-- `%.f`: prints nothing for a whole second, a dot and 3, 6 or 9 digits otherwise -/
+def isOptFrac : Item → Bool
+  | .fixed .nanosecond => true
+  | _ => false
+
+/-- between a variable-width number and the next item there is a separator that is not a digit — where
+the next item is `%.f` (nothing, or a dot and digits) the separator is the dot or whatever follows `%.f`,
+which must end `%.f`'s own digits anyway (`%-S%.f`, `%H:%M:%_S%.f %p`); and `%.f` (which prints nothing
+for a whole second) is not followed by something that starts with a dot -/
 def separated : List Item → Bool
   | [] => true
   | [_] => true
   | a :: b :: rest =>
-    (selfDelimiting a || stopsNumber b) && (!(a == .fixed .nanosecond) || !startsWithDot b) &&
-      separated (b :: rest)
+    ((selfDelimiting a || stopsNumber b) || (isNumber a && isOptFrac b)) &&
+      (!(a == .fixed .nanosecond) || !startsWithDot b) && separated (b :: rest)
 
 /-- some `%Y` (resp. `%G`) is directly followed by something that may start with a digit: only the
 fixed four-digit rendering can be told apart then -/
@@ -186,9 +201,10 @@ would hand the decision to whatever follows (`%S %.f .%3f` formats 12:34:05 as `
 reader takes for the fraction `.000` and then misses the literal dot: the real crate answers TOO_SHORT).
 `spaceSafe` is therefore part of `Unambiguous`. -/
 
-/-- a literal whose first byte is a visible ASCII character -/
+/-- a literal whose first character is complete (all its UTF-8 bytes are there) and is not one of the 25
+white-space characters: `x`, `é`, `年` -/
 def visibleLiteral : Item → Bool
-  | .literal (b :: _) => decide (b < 128) && !((decide (9 ≤ b) && decide (b ≤ 13)) || b == 32)
+  | .literal (b :: rest) => Scan.wsLen (b :: rest) == 0 && decide (Scan.charLen b ≤ (b :: rest).length)
   | _ => false
 
 /-- items whose reader skips leading white space itself -/
@@ -197,10 +213,14 @@ def leadInsensitive : Item → Bool
   | _ => false
 
 /-- what may follow a white-space item in the part of the family that is proved: an item whose reader
-skips white space anyway (numbers, offsets), a visible literal, a name, am/pm, or the end -/
+skips white space anyway (numbers, offsets), a literal that starts with a non-blank character, a name,
+am/pm, a fixed-width fraction item (`%.3f %.6f %.9f`: a dot first; `%3f %6f %9f`: a digit first), or the
+end.  Not `%.f`: it prints nothing for a whole second, so the white space would touch whatever follows. -/
 def afterSpaceOk : Item → Bool
   | .fixed .shortMonthName | .fixed .longMonthName | .fixed .shortWeekdayName | .fixed .longWeekdayName
   | .fixed .lowerAmPm | .fixed .upperAmPm => true
+  | .fixed .nanosecond3 | .fixed .nanosecond6 | .fixed .nanosecond9 => true
+  | .fixed .nanosecond3NoDot | .fixed .nanosecond6NoDot | .fixed .nanosecond9NoDot => true
   | it => leadInsensitive it || visibleLiteral it
 
 def spaceSafe : List Item → Bool
